@@ -25,7 +25,7 @@ import (
 	"verif/internal/wx"
 )
 
-var suite = vrt.NewSuite("C16", "(sequence of 1-4 subjects, route): a subject is a struct type with a value - an anonymous type synthesised with reflect.StructOf from a generated recipe (as in C15), or a named type from a catalogue that contains embedded structs, every tag form and two pairs of types with the same short name in different packages (pa.Item / pb.Item, pa.Box / pb.Box). The subjects are sent through one recomposer in the generated order (a fresh *alt.Recomposer, or the process wide alt.DefaultRecomposer reset at the start of the case) by one of the routes alt.Decompose->Recompose, oj.Marshal->oj.Unmarshal, oj.Marshal->sen.Unmarshal. Oracles: (round trip) the result is deeply equal to the original with nil and empty slices / maps identified and fields tagged json:\"-\" zeroed on the tag routes; (history) the outcome for every subject equals the outcome of the same trip through a recomposer that has seen nothing else. Non-trivial = at least two subjects of distinct types, or one subject with a nested struct, pointer, map or embedded struct; distinct = distinct (subjects, route)")
+var suite = vrt.NewSuite("C16", "(sequence of 1-4 subjects, route): a subject is a struct type with a value - an anonymous type synthesised with reflect.StructOf from a generated recipe (as in C15), or a named type from a catalogue that contains embedded structs, every tag form and two pairs of types with the same short name in different packages (pa.Item / pb.Item, pa.Box / pb.Box) and ten holder types whose only mention of a leaf struct type is one field (first, middle, last; pointer, slice, array, map, value, nested) while an interface field holds a value of that leaf type. The subjects are sent through one recomposer in the generated order (a fresh *alt.Recomposer, or the process wide alt.DefaultRecomposer reset at the start of the case) by one of the routes alt.Decompose->Recompose, oj.Marshal->oj.Unmarshal, oj.Marshal->sen.Unmarshal. Oracles: (round trip) the result is deeply equal to the original with nil and empty slices / maps identified and fields tagged json:\"-\" zeroed on the tag routes; (history) the outcome for every subject equals the outcome of the same trip through a recomposer that has seen nothing else. Non-trivial = at least two subjects of distinct types, or one subject with a nested struct, pointer, map or embedded struct; distinct = distinct (subjects, route)")
 
 // Subject is one type with a value.
 type Subject struct {
